@@ -6,9 +6,10 @@
    Both are proved for the modelled library functions (non-vacuity).  On the code side they are what fix F13 (data
    helpers copy the count back) and the seeded mutant C09-m2 (arraySort swallowing the budget error) are about; the
    correspondence and the direct oracle exercise them on the real library. *)
-From Coq Require Import ZArith.
+From Coq Require Import ZArith List Lia.
 From BS Require Import Model.Base Model.Num Model.Arith Model.ExprParser Model.Script Model.Interp Model.LibCore Model.LibAll Model.LibPartial Model.Run Proofs.C09 Proofs.LibAll Proofs.LibPartial Proofs.C09term Proofs.C09termLib.
 From BS Require Import Proofs.C09termFull Proofs.C09termG Proofs.C09termFullG Proofs.C09termClosure.
+From BS Require Import Model.LibMore Model.LibCall Model.LibLift Proofs.C09clInv Proofs.C09clLib Proofs.C09clSim Proofs.C09clTower Proofs.C09clMore Proofs.C09clSeq Proofs.C09clEnc Proofs.C09clMain.
 Local Open Scope Z_scope.
 
 (* EXACT (1): the limit is tested at the head of every statement, after counting it: with L statements started, statement
@@ -257,7 +258,7 @@ Print Assumptions C09_terminates_combined_library_without_closures.
    (p = FLib [0; 0], heap [[p]], global p), `return p()` answers the depth-0 answer of the tower at every fuel.  No run from an empty
    heap builds that world (a closure's hidden array is allocated before the closure value exists and no script value refers to it),
    but the theorem quantifies over worlds; so for libfull2 the clause needs that invariant of reachable states, and no measure makes
-   lib_wf true of libfull2 as it stands.  NOT PROVED: the clause for libfull2 from initial worlds without closure values. *)
+   lib_wf true of libfull2 as it stands.  The clause for libfull2 from worlds that satisfy the reachability invariant: (7) below. *)
 Theorem C09_closures_forged_world_refutes_the_clause :
   let cfg := mkcfg 10 false true in
   let p := VFun (FLib [0%N; 0%N]) in
@@ -276,7 +277,7 @@ Print Assumptions C09_no_measure_for_closures_over_all_worlds.
    bound argument, and a head that is itself a closure has a SMALLER location - the shape systemPartial gives it.  [libfull2g] is
    libfull2 with that shape as a guard: calling a closure whose hidden array fails it is declined (LOracle).  Where the guard holds
    the two libraries are the same function; for libfull2g THE CLAUSE holds in every world with no premise on the library.  That the
-   guard holds at every closure call of a run of libfull2 from a world without closure values is the invariant that is NOT proved. *)
+   guard holds at every closure call of a run of libfull2 from a world without closure values is the invariant of (7) below. *)
 Theorem C09_guarded_library_is_the_combined_library_where_the_guard_holds : forall cfg cb name args w,
   (forall l, partial_loc name = Some l -> closure_ok w l = true) -> libfull2g cfg cb name args w = libfull2 cfg cb name args w.
 Proof. exact libfull2g_same. Qed.
@@ -296,6 +297,182 @@ Theorem C09_fresh_closure_passes_the_guard : forall args w v w1 l,
   closure_ok w1 l = true.
 Proof. exact partial_new_guard. Qed.
 Print Assumptions C09_fresh_closure_passes_the_guard.
+
+(* (7) THE REACHABILITY INVARIANT (Proofs/C09clInv.v) and the clause for libfull2 itself.
+   [closures_wf w]: there is a set H of HIDDEN array locations such that
+     * every l in H is an array of w of the shape systemPartial gives: head :: bound1 :: ..., and a head that is a closure is a
+       closure of a SMALLER location (hence closure_ok w l, C09_invariant_gives_the_guard);
+     * every value stored in w (globals, cells of ALL arrays - the hidden ones too -, cells of objects) is [val_ok H #arrays]:
+         VArr l            : l < #arrays and l is NOT hidden  (no value names a hidden array; none dangles),
+         VFun (FLib [0;l]) : l is hidden,
+         VFun (FLib nm), nm no closure name : every code point of nm + 1 < 1114113 (what the lifting's numeral encoding of
+                             function values needs to give the name back; a forged name [1114113 + l] would come back as the closure l).
+   Both extra conditions are NEEDED: with a dangling `x = VArr 5` in the globals of an empty heap, the sixth array a script allocates
+   by systemPartial is named by x, and arraySet(x, 0, <that closure>) builds the self-referential hidden array of (5).
+   The invariant is inductive because no value names a hidden array, so no library function can be handed one to write into; from
+   state to state H only grows, by fresh locations (Proofs/C09clInv.v ext), and every val_ok value stays val_ok (val_ok_mono) - that
+   carries interpreter locals, argument lists in flight and the list arraySort is permuting. *)
+Theorem C09_closures_wf_spelled : forall w,
+  closures_wf w <->
+  exists H : nat -> Prop,
+    (forall l, H l -> exists f b bs, nth_error (w_arrs w) l = Some (f :: b :: bs) /\
+                      forall nm l', f = VFun (FLib nm) -> partial_loc nm = Some l' -> (l' < l)%nat) /\
+    Forall (fun p => val_ok H (length (w_arrs w)) (snd p)) (w_globals w) /\
+    Forall (Forall (val_ok H (length (w_arrs w)))) (w_arrs w) /\
+    Forall (Forall (fun p => val_ok H (length (w_arrs w)) (snd p))) (w_objs w).
+Proof. intros w. split; intros X; exact X. Qed.
+Print Assumptions C09_closures_wf_spelled.
+
+Theorem C09_val_ok_spelled : forall (H : nat -> Prop) na v,
+  val_ok H na v <->
+  match v with
+  | VArr l => (l < na)%nat /\ ~ H l
+  | VFun (FLib nm) => match partial_loc nm with Some l => H l | None => Forall (fun c => (c + 1 < 1114113)%N) nm end
+  | _ => True
+  end.
+Proof. intros H na v. destruct v; split; intros X; exact X. Qed.
+Print Assumptions C09_val_ok_spelled.
+
+(* (7.1) it holds of every world without closure values, dangling array references and ill-coded function names *)
+Theorem C09_closure_free_worlds_are_wf : forall w,
+  (let plain := fun v => match v with
+                         | VArr l => (l < length (w_arrs w))%nat
+                         | VFun (FLib nm) => partial_loc nm = None /\ Forall (fun c => (c + 1 < 1114113)%N) nm
+                         | _ => True end in
+   Forall (fun p => plain (snd p)) (w_globals w) /\ Forall (Forall plain) (w_arrs w) /\
+   Forall (Forall (fun p => plain (snd p))) (w_objs w)) ->
+  closures_wf w.
+Proof. intros w X. exists (fun _ => False). apply closure_free_wf. exact X. Qed.
+Print Assumptions C09_closure_free_worlds_are_wf.
+
+Example C09_example_initial_worlds_are_wf :
+  closures_wf (world0 []) /\
+  closures_wf (upd_arrs (world0 [(U "a", VArr 0); (U "f", VFun (FLib (U "arraySort"))); (U "n", VNum (NInt 3))]) [[VStr (U "x"); VArr 0]]).
+Proof.
+  split; apply C09_closure_free_worlds_are_wf; cbn; repeat constructor; cbn; try lia.
+Qed.
+
+(* (7.2) the invariant gives the guard of (6) at every hidden location *)
+Theorem C09_invariant_gives_the_guard : forall H w l, wf H w -> H l -> closure_ok w l = true.
+Proof. exact wf_closure_ok. Qed.
+Print Assumptions C09_invariant_gives_the_guard.
+
+(* (7.3) library functions that do not call back PRESERVE it: a later hidden set H' (ext), a well-formed world, a well-formed answer.
+   Proved for every function of LibCore (arrayPush / arraySet / objectSet / systemGlobalSet store argument values, which are
+   well-formed; they cannot be handed a hidden array), for systemPartial (the fresh hidden array joins H) and for every function of
+   LibMore (jsonParse allocates fresh arrays of plain values; the others answer numbers, strings, booleans, datetimes, null). *)
+Theorem C09_invariant_preserved_by_the_core_library : forall cfg (cb : caller) H name args w,
+  wf H w -> Forall (val_ok H (length (w_arrs w))) args ->
+  let r := libcore cfg cb name args w in
+  exists H', ext H (length (w_arrs w)) H' (length (w_arrs (snd r))) /\ wf H' (snd r) /\
+             match fst r with LVal v | LArgs v _ => val_ok H' (length (w_arrs (snd r))) v | _ => True end.
+Proof. intros cfg cb H name args w Hw Ha. exact (libcore_pres cfg cb H name args w Hw Ha). Qed.
+Print Assumptions C09_invariant_preserved_by_the_core_library.
+
+Theorem C09_invariant_preserved_by_systemPartial : forall H args w,
+  wf H w -> Forall (val_ok H (length (w_arrs w))) args ->
+  let r := lib_partial_new args w in
+  exists H', ext H (length (w_arrs w)) H' (length (w_arrs (snd r))) /\ wf H' (snd r) /\
+             match fst r with LVal v | LArgs v _ => val_ok H' (length (w_arrs (snd r))) v | _ => True end.
+Proof. intros H args w Hw Ha. exact (partial_new_pres H args w Hw Ha). Qed.
+Print Assumptions C09_invariant_preserved_by_systemPartial.
+
+Theorem C09_invariant_preserved_by_the_further_library : forall cfg H name args w,
+  wf H w -> Forall (val_ok H (length (w_arrs w))) args ->
+  let r := libmore cfg name args w in
+  exists H', ext H (length (w_arrs w)) H' (length (w_arrs (snd r))) /\ wf H' (snd r) /\
+             match fst r with LVal v | LArgs v _ => val_ok H' (length (w_arrs (snd r))) v | _ => True end.
+Proof. intros cfg H name args w Hw Ha. exact (libmore_pres cfg H name args w Hw Ha). Qed.
+Print Assumptions C09_invariant_preserved_by_the_further_library.
+
+(* (7.4) ... and so do the lifted LibSeq functions (Model/LibAll.v lift_seq: the ~37 array / object / string functions, run on LibSeq's
+   single heap after a change of representation).  On LibSeq's side (Proofs/C09clSeqV.v) every function of Q.lib keeps well-formed
+   cells well-formed, never writes a hidden position (it is never handed one), answers with an argument value, a stored value or a
+   fresh cell; reading the heap back RE-ENCODES every array through of_v . to_v, the hidden ones too (Proofs/C09clSeq.v), and the
+   numeral coding of function values gives a well-formed function reference back as itself - or, for a closure whose location does
+   not fit one code point, as a sane name that is not a closure name (Proofs/C09clEnc.v fn_roundtrip_holds). *)
+Theorem C09_invariant_preserved_by_the_lifted_library : forall cfg (H : nat -> Prop) name args w,
+  wf H w -> Forall (val_ok H (length (w_arrs w))) args ->
+  let r := lift_seq cfg name args w in
+  exists H', ext H (length (w_arrs w)) H' (length (w_arrs (snd r))) /\ wf H' (snd r) /\
+             match fst r with LVal v | LArgs v _ => val_ok H' (length (w_arrs (snd r))) v | _ => True end.
+Proof. intros cfg H name args w Hw Ha. exact (lift_seq_pres_holds cfg H name args w Hw Ha). Qed.
+Print Assumptions C09_invariant_preserved_by_the_lifted_library.
+
+Theorem C09_function_value_coding_round_trip : forall fr,
+  match fr with FLib nm => partial_loc nm <> None \/ Forall (fun c => (c + 1 < 1114113)%N) nm | FScript _ => True end ->
+  dec_fn (enc_fn fr) = fr \/
+  exists nm, dec_fn (enc_fn fr) = FLib nm /\ partial_loc nm = None /\ Forall (fun c => (c + 1 < 1114113)%N) nm.
+Proof. exact fn_roundtrip_holds. Qed.
+Print Assumptions C09_function_value_coding_round_trip.
+
+(* (7.5) one library call, callbacks in step (the guarded tower answers ORt poison at depth 0, the unguarded one anything): under the
+   invariant the guarded and the unguarded library give the same answer, well-formed again - or the guarded one passes the poison on.
+   arraySort with any comparator: the list being permuted and the stop reason are carried along the growing hidden set
+   (Proofs/C09clSim.v lib_sort_sim); the closure call: the guard holds by the invariant (partial_call_sim). *)
+Theorem C09_combined_library_in_step_with_guarded :
+  forall poison cfg cbT cbU,
+  (forall H fv a w, wf H w -> val_ok H (length (w_arrs w)) fv -> Forall (val_ok H (length (w_arrs w))) a ->
+     fst (cbT fv a w) = ORt poison \/
+     (cbU fv a w = cbT fv a w /\
+      exists H', ext H (length (w_arrs w)) H' (length (w_arrs (snd (cbT fv a w)))) /\ wf H' (snd (cbT fv a w)) /\
+                 match fst (cbT fv a w) with OVal v | OExc v _ => val_ok H' (length (w_arrs (snd (cbT fv a w)))) v | _ => True end)) ->
+  forall H name args w, wf H w -> val_ok H (length (w_arrs w)) (VFun (FLib name)) -> Forall (val_ok H (length (w_arrs w))) args ->
+  let rT := libfull2g cfg cbT name args w in
+  fst rT = LRt poison \/
+  (libfull2 cfg cbU name args w = rT /\
+   exists H', ext H (length (w_arrs w)) H' (length (w_arrs (snd rT))) /\ wf H' (snd rT) /\
+              match fst rT with LVal v | LArgs v _ => val_ok H' (length (w_arrs (snd rT))) v | _ => True end).
+Proof.
+  intros poison cfg cbT cbU Hcb H name args w Hw Hn Ha.
+  exact (libfull2_in_step poison cfg cbT cbU Hcb H name args w Hw Hn Ha).
+Qed.
+Print Assumptions C09_combined_library_in_step_with_guarded.
+
+(* (7.6) THE CLAUSE for the combined library libfull2, NO premise on the library: from every world that satisfies the invariant - in
+   particular from every world without closure values, dangling array references and ill-coded function names (7.1) - every run
+   under a positive statement limit terminates (the answer is the same from some fuel on, whatever the fuel and whatever the tower
+   answers at depth 0), and the final world satisfies the invariant again.  The invariant is preserved by eval / call / exec
+   (Proofs/C09clTower.v, one lemma per body function, locals and argument lists in flight carried by val_ok_mono) given (7.3)-(7.5).
+   Method: by induction on the fuel, from every well-formed state, "the guarded tower's answer is ORt poison, or both towers answer the
+   same and well-formed again"; poison passes through every construct unchanged; at a fuel where the guarded run (6) has settled to
+   an answer independent of its depth-0 answer, a poison different from that answer excludes the first case. *)
+Theorem C09_terminates_combined_library : forall cfg cfg' url_rel lint_lines, 0 < c_max cfg ->
+  forall sc w, closures_wf w ->
+  exists fuel r, (forall bot fuel', (fuel <= fuel')%nat ->
+                    execute_script_bot cfg (libfull2 cfg') url_rel lint_lines bot fuel' sc w = r) /\
+                 closures_wf (snd r).
+Proof. exact libfull2_run_terminates. Qed.
+Print Assumptions C09_terminates_combined_library.
+
+(* non-vacuity: every program, started in the empty world (execute_script injects the library's function values itself) *)
+Example C09_example_every_program_from_the_empty_world : forall cfg sc, 0 < c_max cfg ->
+  exists fuel r, (forall bot fuel', (fuel <= fuel')%nat ->
+                    execute_script_bot cfg (libfull2 cfg) no_url no_lint bot fuel' sc (world0 []) = r) /\
+                 closures_wf (snd r).
+Proof.
+  intros cfg sc Hpos. apply (C09_terminates_combined_library cfg cfg no_url no_lint Hpos sc (world0 [])).
+  apply C09_example_initial_worlds_are_wf.
+Qed.
+
+(* ... and that run IS the run with the guarded library of (6) *)
+Theorem C09_combined_library_run_is_the_guarded_run : forall cfg cfg' url_rel lint_lines, 0 < c_max cfg ->
+  forall sc w, closures_wf w ->
+  exists fuel, forall bot fuel', (fuel <= fuel')%nat ->
+    execute_script_bot cfg (libfull2 cfg') url_rel lint_lines bot fuel' sc w =
+    execute_script_bot cfg (libfull2g cfg') url_rel lint_lines bot fuel' sc w.
+Proof. exact libfull2_run_is_guarded_run. Qed.
+Print Assumptions C09_combined_library_run_is_the_guarded_run.
+
+(* the forged world of (5) is exactly what the invariant excludes: its hidden array 0 would have to hold a closure of a smaller location *)
+Theorem C09_forged_world_is_not_wf :
+  let p := VFun (FLib [0%N; 0%N]) in
+  ~ closures_wf (upd_arrs (upd_globals (world0 []) [(U "p", p)]) [[p]]).
+Proof.
+  intros p [H (A & B & _)]. cbn in B. apply Forall_cons_iff in B. destruct B as [B _]. cbn in B.
+  destruct (A 0%nat B) as (f & b & bs & E & _). cbn in E. discriminate E.
+Qed.
+Print Assumptions C09_forged_world_is_not_wf.
 
 (* closures at work under maxStatements = 20: a closure of a closure over arraySort, called with a script comparator that logs
      function cmp(a, b): systemLog('c'); return b - a endfunction
